@@ -48,6 +48,7 @@ func c01Jobs(tier string) []string {
 		add(base+",mtu=76,aw=4x24,read=end,b=1", 4)
 		add(base+",mtu=100,aw=96,issa=2147483628,sack=1,b=1", 4)
 		add(base+",mtu=76,aw=96,issa=4294967276,b=1", 4)
+		add(base+",mtu=576,aw=20+100+30,issa=4294967285,b=1", 2)
 		add(base+",aw=2x1400,v6=1,mtu=1280,b=1", 2)
 		add(base+",mtu=76,aw=400,rcvbuf=100,b=1", 4)
 		add(base+",mtu=76,aw=300+100,sndbuf=128,b=1", 4)
